@@ -315,6 +315,64 @@ fn c09_scenario(rep: &Reporter, sc: &Scenario, tier: Tier, stats: &C09Stats, sam
             }
         });
     }
+    // (8) the interrupted search is a PONDER search on the position the engine itself predicted:
+    // position P, go depth 3 -> bestmove m0 ponder m1; position P moves m0 m1; go ponder infinite /
+    // go infinite / go ponder depth 9, stopped at the first poll a real build can reach; then the
+    // follow-up go without position
+    {
+        let (_, first) = dry_run(&pos_line, "go depth 3");
+        if first.problem.is_none() && first.pv.len() >= 2 {
+            let mut moves2 = sc.moves.clone();
+            moves2.push(first.pv[0].clone());
+            moves2.push(first.pv[1].clone());
+            let mut root2 = sc.pos.clone();
+            let mut ok = true;
+            for u in &moves2 {
+                match root2.find_legal_uci(u) {
+                    Some(m) => root2 = root2.make(&m),
+                    None => ok = false,
+                }
+            }
+            if ok && root2.has_legal_move() {
+                let pos_line2 = position_line(&sc.pos, &moves2);
+                let legal2: Vec<String> = root2.legal().iter().map(|m| m.uci()).collect();
+                let (_, fresh2) = dry_run(&pos_line2, "go depth 1");
+                let forms8 = ["go ponder infinite", "go infinite", "go ponder depth 9", "go ponder movetime 100000"];
+                let idx8: Vec<usize> = (0..forms8.len()).collect();
+                par_map_fine(&idx8, |&fi| {
+                    stats.runs.fetch_add(1, Ordering::Relaxed);
+                    let case = |extra: Value| json!({"kind": "interrupt_ponder_continuation", "position": pos_line, "depth": sc.depth, "continuation": pos_line2, "go": forms8[fi], "poll_index": 1, "detail": extra});
+                    let mut s = Session::new(false);
+                    s.line(&pos_line);
+                    let _ = run_go(&mut s, "go depth 3", Plan::virtual_rate(0), &none);
+                    s.line(&pos_line2);
+                    let out = run_go(&mut s, forms8[fi], Plan { poll: Some((500, 48_000)), clock: Clock::Rate { ns_per_node: 0, jumps: vec![] }, gates: vec![1] }, &|kk| if kk == 1 { vec![GateAction::Stop] } else { vec![] });
+                    if out.problem.is_some() || out.n_best != 1 {
+                        rep.report("interrupted_search_gives_no_single_answer:ponder_continuation".to_string(), case(json!({"problem": out.problem, "bestmoves": out.n_best})));
+                        s.quit();
+                        return;
+                    }
+                    if let (Some(b), Some(a)) = (&out.obs.before_fen, &out.obs.after_fen) {
+                        if a != b {
+                            rep.report("position_altered_by_interrupted_search:ponder_continuation".to_string(), case(json!({"before": b, "after": a})));
+                        }
+                    }
+                    let again = run_go(&mut s, "go depth 1", Plan::virtual_rate(0), &none);
+                    s.quit();
+                    match &again.best {
+                        Some(b) if legal2.contains(b) => {}
+                        other => {
+                            rep.report("go_after_interruption_plays_illegal_or_null_move:ponder_continuation".to_string(), case(json!({"bestmove": other, "legal_moves": legal2})));
+                            return;
+                        }
+                    }
+                    if again.score != fresh2.score {
+                        rep.report("go_after_interruption_scores_differently_from_fresh_engine:ponder_continuation".to_string(), case(json!({"score": format!("{:?}", again.score), "fresh": format!("{:?}", fresh2.score)})));
+                    }
+                });
+            }
+        }
+    }
     // (6) earlier in the session, commands that belong to the idle state (position, go) arrived WHILE a
     // search was running. What the engine does with them then is its own business; but afterwards
     // the position given while idle is the position, however many searches follow.
